@@ -135,8 +135,10 @@ def make_wiring(with_rst):
         win = ts.instance(ULPIRegisterWindow)
         ctl = ts.instance(ULPIControlTranslator)
         of = ts.of
-        wfsm = ts.fsm("register_window.fsm_state")
-        tfsm = ts.fsm("transmit_translator.fsm_state")
+        # FSMs of the real child instances (found by class), whatever UTMITranslator.elaborate calls the submodules
+        from .c10_unsupported_requests_stall import instance_fsm
+        wfsm = instance_fsm(ts, win)
+        tfsm = instance_fsm(ts, tx)
         dirb = B(I["dir"])
         req = of(tx.ulpi_out_req) == 1
 
